@@ -19,15 +19,24 @@ def fold_repeat_bodies(text):
         if k < 0:
             out.append(text[j:])
             break
-        depth, m = 0, k
+        depth, m, closed = 0, k, False
         while m < len(text):
-            if text[m] == "{":
+            ch = text[m]
+            if ch == ";":                      # a comment: braces in it do not count
+                nl = text.find("\n", m)
+                m = len(text) if nl < 0 else nl
+                continue
+            if ch == "{":
                 depth += 1
-            elif text[m] == "}":
+            elif ch == "}":
                 depth -= 1
                 if depth == 0:
+                    closed = True
                     break
             m += 1
+        if not closed:                         # unbalanced: fold the directive's own line only
+            nl = text.find("\n", j)
+            m = len(text) - 1 if nl < 0 else nl - 1
         out.append(text[j:m + 1].replace("\n", " ").replace(":", " ").replace("=", " "))
         i = m + 1
     return "".join(out)
@@ -50,12 +59,12 @@ def definitional_cycle(texts):
     for text in texts:
         # drop comments and radix / complement prefixes (so that '^Cx1' mentions x1); fold a '.repeat' body into its operand
         text = "\n".join(line if any(q in line.split(";")[0] for q in "\"'/") else line.split(";")[0] for line in text.split("\n"))
-        text = re.sub(r"\^[CcXxOoBbDdRr]", " ", text)
         text = fold_repeat_bodies(text)
         # an expression continues on the next line when that line starts with an operator or an opening bracket, or
         # when this one ends with an operator or a comma: join such lines
-        text = re.sub(r"\n(?=[ \t]*[-+*/%&|!^_(<>,])", " ", text)
-        text = re.sub(r"(?<=[-+*/%&|!^_,(<])[ \t]*\n", " ", text)
+        text = re.sub(r"\n(?:[ \t]*\n)*(?=[ \t]*[-+*/%&|!^_(<>,])", " ", text)
+        text = re.sub(r"(?<=[-+*/%&|!^_,(<])[ \t]*\n(?:[ \t]*\n)*", " ", text)
+        text = re.sub(r"\^[CcXxOoBbDdRr]", " ", text)
         pos = 0
         while True:
             m = event.search(text, pos)
